@@ -440,6 +440,7 @@ func runC11(e *Env) error {
 		c11CLI(e, pool)
 		c11CLIScripted(e, pool)
 		c11CLIInterrupted(e, pool)
+		c11CLIResumeCount(e, pool)
 		c11PGClean(e, pool)
 		c11MyClean(e, pool)
 	}
